@@ -15,8 +15,8 @@ PROP = {
     "manifest": dict(
         text="UNIT-WISE crash freedom; oracle = Kani's built-in checks (panic, unwrap/expect, slice/array bounds, arithmetic overflow with dev-profile semantics, division by zero, invalid pointers) on the real code, each unit "
              "driven with exactly the values the file-reading chain can hand it: U1 both frame parsers on arbitrary buffers <= 24 B (thorough 40 B) and one DltMessageIterator::next from each framing state on arbitrary short buffers; "
-             "U2 the verbose/non-verbose argument iterator on arbitrary payloads <= 12 B (thorough 16); U3 the control-message payload parsers (unregister-context, connection-info, timezone, software-version length arithmetic; get-log-info for status 3 and unsupported status only - "
-             "statuses 4..7 exceed 20 GB in CBMC because of the nested Vec/String drop glue) on arbitrary bytes; U4 Lifecycle::new/update/merge and the derived getters from any record satisfying the representation invariant x any message; "
+             "U2 the verbose/non-verbose argument iterator on arbitrary payloads <= 12 B (thorough 16); U3 the control-message payload parsers (unregister-context, connection-info, timezone, software-version length arithmetic; get-log-info for status 3, 4 (thorough) and unsupported status only - "
+             "statuses 5..7 exceed 30 GB in CBMC because of the nested Vec/String drop glue) on arbitrary bytes; U4 Lifecycle::new/update/merge and the derived getters from any record satisfying the representation invariant x any message; "
              "U6 the lifecycle listing sort (strict weak order, 3 records). NOT covered (cannot be encoded: regex engines, chrono, FIBEX/JSON decoders, std HashMap, channels): the CAN-ASC/logcat/generic-log converters, "
              "header/payload text rendering, the plugins, EacStats, the time sorter, the detector main loop incl. its internal assert!, the FLST pre-allocation (U5, see DESIGN).",
         note=TB + "stubs for regex/encoding_rs call targets as listed; allocation failure out of scope (--no-malloc-may-fail is Kani's default).",
@@ -33,7 +33,7 @@ PROP = {
     "stubs": ["alloc::fmt::format -> String::new()", SWV_STUB] + TEXT_STUBS,
     "outside": ["CAN-ASC / BLF / logcat / generic-log converters (regex, chrono)", "header_as_text_to_write, payload_as_text (core::fmt, itoa, regex, encoding_rs, serde_json)",
                 "non-verbose / SOME-IP / CAN / Muniic / rewrite / anonymise / export plugins", "EacStats, buffer_sort_messages, parse_lifecycles_buffered_from_stream main loop incl. its internal assert!",
-                "get-log-info responses with status 4..7 (log level / trace status / descriptions): > 20 GB in CBMC (probed at 8..16 B payloads)", "file-transfer FLST pre-allocation nr_packages * buffer_size (one real HashMap::insert did not finish in 25 min; by-reading expectation only, not a finding)",
+                "get-log-info responses with status 5..7 (trace status / descriptions): > 30 GB in CBMC also with a concrete announced count (probed at 8..16 B payloads); status 4 only in the thorough tier (22 GB)", "file-transfer FLST pre-allocation nr_packages * buffer_size (one real HashMap::insert did not finish in 25 min; by-reading expectation only, not a finding)",
                 "the isolated-worker-process observation named in the property is not used"],
     "assumptions": ["get-log-info: announced application count <= 3 (symbolic-size pre-allocation costs CBMC ~20 GB; the count is a u16, so the real pre-allocation is <= 65535 entries)", "lifecycle representation invariant I (re-asserted after each step)", "reception times are what a storage header can carry"],
     "instances": [
@@ -48,11 +48,7 @@ PROP = {
         U("dlt_args", "c03_u2_arg_iter_any_12", Q, "arbitrary payload <= 12 B, verbose or not, both byte orders", "U2 argument iterator: slices inside payload, terminates", covers=2),
         U("dlt_args", "c03_u2_arg_iter_any_16", T, "arbitrary payload <= 16 B", "U2 argument iterator", covers=2, timeout=3000, mem_gb=24),
         U("dlt_ctrl", "c03_u3_log_info_s8_12", Q, "status 8 (unsupported), payload <= 12 B", "U3 get-log-info parser: unsupported status ignored", covers=2),
-        U("dlt_ctrl", "c03_u3_log_info_s6_c1_14", T, "status 6 (level + trace status), 1 announced application, payload <= 14 B", "U3 get-log-info parser", covers=2, timeout=3000, mem_gb=30),
-        U("dlt_ctrl", "c03_u3_log_info_s7_c1_16", T, "status 7 (with descriptions), 1 announced application, payload <= 16 B", "U3 get-log-info parser", covers=2, timeout=3000, mem_gb=30),
-        U("dlt_ctrl", "c03_u3_log_info_s4_c1_13", T, "status 4, 1 announced application, payload <= 13 B", "U3 get-log-info parser", covers=2, timeout=3000, mem_gb=30),
-        U("dlt_ctrl", "c03_u3_log_info_s5_c1_13", T, "status 5, 1 announced application, payload <= 13 B", "U3 get-log-info parser", covers=2, timeout=3000, mem_gb=30),
-        U("dlt_ctrl", "c03_u3_log_info_s3_c2_14", T, "status 3, 2 announced applications, payload <= 14 B", "U3 get-log-info parser", covers=2, timeout=3000, mem_gb=30),
+        U("dlt_ctrl", "c03_u3_log_info_s4_c1_13", T, "status 4 (log levels), 1 announced application, payload <= 13 B", "U3 get-log-info parser", covers=2, timeout=3300, mem_gb=40, cost=900),
         U("dlt_ctrl", "c03_u3_log_info_s3_12", T, "status 3 (ids only), payload <= 12 B, announced count <= 3", "U3 get-log-info parser", covers=2, timeout=3300, mem_gb=40, cost=900),
         U("dlt_ctrl", "c03_u3_fixed_payloads", Q, "arbitrary payload <= 16 B", "U3 unregister-context / connection-info / timezone / sw-version", covers=2),
         U("lc", "lc_update_step_pl6", Q, "any record with I x any message, payload <= 6 B", "U4 Lifecycle::update: no panic/overflow, I preserved", covers=4),
